@@ -168,10 +168,10 @@ func LockStates(fn *ssa.Function, entry LockSet) map[ssa.Instruction]LockSet {
 
 // GuardRow is one row of the lock table.
 type GuardRow struct {
-	Pkg     string   // module-relative package path
-	Type    string   // struct type name
-	Fields  []string // guarded fields
-	Mutex   string   // mutex field of the same struct
+	Pkg    string   // module-relative package path
+	Type   string   // struct type name
+	Fields []string // guarded fields
+	Mutex  string   // mutex field of the same struct
 	// Exempt functions (object not yet shared, documented single-thread API), "T.m" or "f"
 	Exempt map[string]string
 	// Held lists helper functions designed to run with the lock held
